@@ -12,7 +12,7 @@ META = {
         "thorough": "all structure types lengths 0..min(m+4,14); all command codes",
     },
     "outside": "inputs that are neither within N nor an instance of an explored shape; more than one symbolic size field at a time",
-    "wall_budget_s": {"quick": 270, "thorough": 1500},
+    "wall_budget_s": {"quick": 270, "thorough": 840},
 }
 
 
